@@ -34,11 +34,15 @@ def try_replay(replay, env):
     try:
         r = replay(env)
     except Exception as e:  # the real code raised on this input
+        if type(e).__name__ == "GateRejected":
+            return False, {"note": "candidate rejected by a validity gate (gate behaviour is C09's subject)", "gate": str(e)}
         tb = traceback.extract_tb(e.__traceback__)
         inner = tb[-1].filename if tb else ""
         if not any(REPO in fr.filename for fr in tb):
             raise HarnessError(f"replay failed inside the harness: {type(e).__name__}: {e} at {inner}") from e
         return True, {"exception": f"{type(e).__name__}: {e}", "trace": traceback.format_exc()[-1200:]}
+    if r is None:
+        return False, {"note": "candidate rejected by a validity gate (covariance gate behaviour is C09's subject)"}
     impl, spec = r["impl"], r["spec"]
     if isinstance(impl, (list, tuple)):
         differs = any(not approx_equal(float(a), float(b)) for a, b in zip(impl, spec))
@@ -73,6 +77,8 @@ def prove_equal(
     rng=None,
     extra_axioms=(),
     all_vars=None,
+    witness_constraints=(),
+    seeded_envs=None,
 ):
     """Returns 'proved' | 'violation' | 'inconclusive'."""
     if impl is spec or impl.eq(spec):
@@ -90,14 +96,25 @@ def prove_equal(
         vars_.setdefault(n, v)
     cands = []
     if q.status == "sat":
-        q2 = solve(list(assumes) + ax + [_absdiff_gt(impl, spec)] + dyadic_box(vars_, box[0], box[1]), min(timeout_ms, 10000), name + "/robust")
+        q2 = solve(list(assumes) + ax + list(witness_constraints) + [_absdiff_gt(impl, spec)] + dyadic_box(vars_, box[0], box[1]), min(timeout_ms, 10000), name + "/robust")
         if q2.status == "sat":
             cands.append(("robust", env_from_model(q2.model, vars_)))
-        cands.append(("raw", env_from_model(q.model, vars_)))
+        elif witness_constraints:
+            q3 = solve(list(assumes) + ax + list(witness_constraints) + [impl != spec], min(timeout_ms, 10000), name + "/witness")
+            if q3.status == "sat":
+                cands.append(("constrained", env_from_model(q3.model, vars_)))
+        if not witness_constraints:
+            cands.append(("raw", env_from_model(q.model, vars_)))
     # seeded points as additional candidates (each is then *checked*, never assumed)
     rng = rng or random.Random(hash(name) & 0xFFFF)
-    for i in range(6):
-        cands.append(("seeded", {n: rng.randint(box[0] * 8, box[1] * 8) / 8.0 for n in vars_}))
+    if seeded_envs is not None:
+        for e in seeded_envs(rng, 6):
+            for n in vars_:
+                e.setdefault(n, rng.randint(box[0] * 8, box[1] * 8) / 8.0)
+            cands.append(("seeded", e))
+    else:
+        for i in range(6):
+            cands.append(("seeded", {n: rng.randint(box[0] * 8, box[1] * 8) / 8.0 for n in vars_}))
     if replay is None:
         if q.status == "sat":
             part.d["inconclusive"].append(name + " (sat, no replay available)")
